@@ -42,9 +42,10 @@ pub trait HasChildren: HasContext {
     fn insert_by_id(&self, value: Rc<XmlItem>, id: Option<usize>) -> error::Result<Rc<XmlItem>>;
 
     fn append(&self, value: Rc<XmlItem>) -> error::Result<Rc<XmlItem>> {
-        let id = self.last_child_or_self_id();
-        value.set_order_after(id);
-        self.insert_by_id(value, None)
+        // the order keys are touched only after the insertion has been accepted
+        let value = self.insert_by_id(value, None)?;
+        self.context().reset_order();
+        Ok(value)
     }
 
     fn delete(&self, id: usize) -> Option<Rc<XmlItem>> {
@@ -67,10 +68,13 @@ pub trait HasChildren: HasContext {
 
     fn insert_before(&self, value: Rc<XmlItem>, id: usize) -> error::Result<Rc<XmlItem>> {
         self.child_index(id).ok_or(error::Error::OufOfIndex(id))?;
-        value
-            .set_order_before(id)
-            .ok_or(error::Error::OufOfIndex(id))?;
-        self.insert_by_id(value, Some(id))
+        if value.id() == id {
+            return Err(error::Error::OufOfIndex(id));
+        }
+        // the order keys are touched only after the insertion has been accepted
+        let value = self.insert_by_id(value, Some(id))?;
+        self.context().reset_order();
+        Ok(value)
     }
 }
 
@@ -440,7 +444,7 @@ impl HasChildren for XmlAttribute {
     }
 
     fn insert_by_id(&self, value: Rc<XmlItem>, id: Option<usize>) -> error::Result<Rc<XmlItem>> {
-        if self.ancestor(value.id()) {
+        if value.id() == self.id() || self.ancestor(value.id()) {
             return Err(error::Error::InvalidHierarchy);
         }
 
@@ -2089,7 +2093,7 @@ impl HasChildren for XmlElement {
     }
 
     fn insert_by_id(&self, value: Rc<XmlItem>, id: Option<usize>) -> error::Result<Rc<XmlItem>> {
-        if self.ancestor(value.id()) {
+        if value.id() == self.id() || self.ancestor(value.id()) {
             return Err(error::Error::InvalidHierarchy);
         }
 
@@ -4095,6 +4099,12 @@ impl Context {
         }
     }
 
+    /// Rebuilds the document-order keys from the tree: every attached item, in document order.
+    fn reset_order(&self) {
+        self.ordering.borrow_mut().clear();
+        self.document().borrow().init_order_recursive();
+    }
+
     pub fn set_text_expanded(&mut self, value: bool) {
         self.text_expanded = value;
     }
@@ -4227,6 +4237,11 @@ impl DocumentOrder {
     fn push(&mut self, info: &Singleton<ContextInfo>) -> (usize, usize) {
         self.order.push(Rc::downgrade(info));
         (self.order.len(), self.version)
+    }
+
+    fn clear(&mut self) {
+        self.order.clear();
+        self.version += 1;
     }
 
     fn remove(&mut self, id: usize) -> Option<usize> {
